@@ -112,4 +112,30 @@ def lattice_streams(ctx, cls, salt):
                            'axis': axis}, nontrivial=(name == 'XZZX' and axis in 'xy' and loc in qs),
                           tag='deform')
         out.append(s.run())
+    out.append(rank_stream(ctx, cls, klass, sizes_for(ctx, cls, salt)))
     return out
+
+
+RANK_THEOREM = {'Toric2DCode': 'generators_independent: all locations but the vertex (0,0) and the face (1,1)',
+                'Planar2DCode': 'generators_independent: every stabilizer location',
+                'RotatedPlanar2DCode': 'generators_independent: every stabilizer location'}
+
+
+def rank_stream(ctx, cls, klass, sizes):
+    """`lat-<Class>-rank-family`: the explicit family of n - k stabilizer locations the all-sizes rank
+    theorem of the class speaks about (printed by the model driver, op `rankfamily`) evaluated on the
+    IMPLEMENTATION's parity-check matrix: all members distinct stabilizer locations, n - k of them,
+    GF(2) rank of the selected rows n - k (family sizes only)"""
+    from harness.lat_cubic3d import rank_post
+    s = Stream(f'lat-{cls}-rank-family', post=rank_post(klass))
+    for size in sizes:
+        label = f'{cls}{tuple(size)}'
+        try:
+            code = klass(*size)
+            nk = guarded(lambda: code.n - code.k)
+        except Exception:  # noqa  (a construction failure is reported by the lattice-model stream)
+            continue
+        s.add(f'lat {cls} {size[0]} {size[1]} rankfamily', f'members {nk} rank {nk}',
+              {'code': label, 'what': f'independent family of n-k generators (theorem {RANK_THEOREM.get(cls, "rank_family")}) '
+               'evaluated on stabilizer_matrix'}, tag='size>5' if max(size) > 5 else 'size<=5')
+    return s.run()
